@@ -77,3 +77,37 @@ def rule(F, rep, rid):
             rep.violation(R, "%s|anchor" % w, "%s has no caller (anchor)" % w)
         for q in badc:
             rep.violation(R, "%s|calls|%s" % (q, w), "%s enters %s directly, bypassing execute_call and the parameter check" % (q, w))
+
+
+def rule_default_env(F, rep, rid):
+    """the environment in which omitted parameters' defaults are evaluated is the function's own closure environment"""
+    R = rep.rule(rid, "default values of omitted parameters are evaluated in the function's closure environment: every call of "
+                 "check_call_thunk_args / check_call_expr_args passes as `func_env` the environment that get_func_info returned "
+                 "for the function being called (never `None` or another environment) — the analyzer checked the defaults against "
+                 "exactly that scope")
+    lang = ("rsjsonnet_lang",)
+    n = 0
+    for chk in CHECKERS:
+        for fn, bb, t in cg.who_calls(F, chk, crates=lang):
+            if fn.q in CHECKERS:
+                continue
+            n += 1
+            body = fn.body
+            P = prov.Prov(F, body)
+            envs = [x for x in t["xs"] if "t" in x and "Option<gc::Gc<program::data::ThunkEnv" in body.ty(x["t"])["s"]]
+            if not envs:
+                envs = [x for x in t["xs"] if "t" in x and "ThunkEnv" in body.ty(x["t"])["s"] and body.ty(x["t"])["s"].startswith("std::option::Option")]
+            org = set()
+            for x in envs[-1:]:
+                if x["k"] == "const":
+                    org.add(("const", x.get("s")))
+                else:
+                    org |= P.origins_op(x)
+            ok = bool(org) and all((o[0] == "call" and o[1].endswith("get_func_info")) or o[0] == "arg" for o in org)
+            rep.ob(R, "%s|func_env@%s" % (fn.q, body.span(t["sp"]).rsplit("/", 1)[-1]), ok, {"caller": fn.q, "func_env_origins": sorted(map(str, org))})
+            if not ok:
+                rep.violation(R, "%s|func_env" % fn.q,
+                              "%s binds call arguments with a `func_env` that does not come from get_func_info (origins %s): default "
+                              "parameter values that refer to the enclosing scope, `std`, `self` or `$` would find nothing there"
+                              % (fn.q, sorted(map(str, org))), body.span(t["sp"]))
+    rep.floor(R, n, 3, "argument-binding call sites")
